@@ -8,6 +8,7 @@ import PyomaVerif.Ops.C20
 import PyomaVerif.Ops.C03
 import PyomaVerif.Ops.C18
 import PyomaVerif.Ops.C14
+import PyomaVerif.Ops.C14Own
 import PyomaVerif.Ops.C19
 import PyomaVerif.Ops.C10
 import PyomaVerif.Ops.C11
@@ -35,6 +36,7 @@ def allOps : List (String × (Json → Except String Json)) :=
   ++ PV.Ops.C17Table.ops
   ++ PV.Ops.C08.ops
   ++ PV.Ops.MsGather.ops
+  ++ PV.Ops.C14Own.ops
 
 def handle (line : String) : String :=
   match Json.parse line with
